@@ -93,8 +93,14 @@ class Finders:
     if gfa_line.record_type == "L":
       previous = self._search_link(gfa_line.oriented_from,
                                    gfa_line.oriented_to, gfa_line.alignment)
+      by_name = self.line(gfa_line.name)
       if previous is None:
-        previous = self.line(gfa_line.name)
+        previous = by_name
+      elif previous.virtual and by_name is not None and \
+          by_name is not previous:
+        # the link takes the place of a virtual link, but its identifier
+        # belongs to another line
+        previous = by_name
       return previous
     elif gfa_line.record_type in self.RECORDS_WITH_NAME:
       return self.line(gfa_line.name)
